@@ -205,6 +205,8 @@ type CosmosTx struct {
 	NonCritExt  []*codectypes.Any
 	FeePayer    string
 	FeeGranter  string
+	Fee         sdk.Coins // overrides FeeAmount/FeeDenom when non-nil (may hold several coins)
+	Unordered   bool
 }
 
 // BuildCosmos signs and encodes the tx using account number/sequence given.
@@ -218,7 +220,9 @@ func (t CosmosTx) Build(txCfg client.TxConfig, chainID string, accNum, seq uint6
 	if denom == "" {
 		denom = Denom
 	}
-	if t.FeeAmount != "" {
+	if t.Fee != nil {
+		b.SetFeeAmount(t.Fee)
+	} else if t.FeeAmount != "" {
 		b.SetFeeAmount(sdk.NewCoins(sdk.NewCoin(denom, mustInt(t.FeeAmount))))
 	}
 	b.SetMemo(t.Memo)
